@@ -108,6 +108,18 @@ def main():
         pk = meta.get("test_pkgs") or []
         if pk:
             rc, out = sh(["go", "test"] + MODARGS + ["-vet=off", "-count=1"] + pk, cwd=bdir, timeout=2400)
+            if rc != 0:
+                # tests that bind fixed ports (TestRedisMetric / TestSqlxMetric: devserver :6060) or sleep
+                # fail when several agents share the machine: re-run the failing packages once, alone
+                bad = sorted(set(l.split()[1] for l in out.split("\n") if l.startswith("FAIL\t") and len(l.split()) > 1))
+                if bad:
+                    time.sleep(3)
+                    rc2, out2 = sh(["go", "test"] + MODARGS + ["-vet=off", "-count=1", "-p", "1"] + bad, cwd=bdir, timeout=2400)
+                    if rc2 == 0:
+                        rc = 0
+                        res["existing_tests_retry"] = "failed once under load (%s), passed when re-run alone" % ", ".join(b.split("/")[-1] for b in bad)
+                    else:
+                        out = out2
             res["existing_tests"] = "pass" if rc == 0 else "FAIL"
             if rc != 0:
                 res["existing_tests_out"] = "\n".join(l for l in out.split("\n") if not l.startswith("ok"))[-2500:]
